@@ -360,7 +360,7 @@ def streams(ctx: lib.Ctx) -> None:
 
     rng = random.Random(ctx.rng.getrandbits(64))
     models: List[Tuple[str, mmg.MetaModel]] = [("probe", xg.probe_metamodel())]
-    n_random = ctx.n(7, 24)
+    n_random = ctx.n(5, 14)
     for k in range(n_random):
         prof = "small" if k % 3 else "tiny"
         models.append((f"{prof}-{k}", mmg.random_metamodel(random.Random(rng.getrandbits(64)), prof)))
